@@ -32,6 +32,7 @@ type Contract struct {
 	Trusted   bool // assumed, body not verified (externs)
 	Pure      bool // no effect on the modelled heap
 	Src       string
+	Dead      []string // anchors of returns that are expected to be unreachable
 	AssertsAt []*AssertAt // in-body assertions, attached to the statement whose source line contains Anchor
 }
 
@@ -143,7 +144,7 @@ func newRegistry() *Registry {
 var stmtKeywords = map[string]bool{
 	"package": true, "func": true, "requires": true, "ensures": true, "assume_ensures": true, "assert_at": true, "assume_at": true, "modifies": true, "loop": true,
 	"invariant": true, "option": true, "trusted": true, "pure": true, "spec": true, "ufunc": true,
-	"axiom": true, "ghost": true, "decreases": true, "opaque": true, "macro": true, "mapvalues": true, "elemvalues": true, "guarded": true, "monitor": true, "frameset": true, "lemma": true, "induct": true,
+	"axiom": true, "ghost": true, "decreases": true, "opaque": true, "macro": true, "mapvalues": true, "elemvalues": true, "guarded": true, "monitor": true, "frameset": true, "dead": true, "lemma": true, "induct": true,
 }
 
 type rawStmt struct {
@@ -363,6 +364,17 @@ func (r *Registry) loadContractFile(path string, pkgPath string) error {
 					}
 				}
 			}
+		case "dead":
+			// dead "anchor": the return (or loop back edge) on the source line containing the anchor is
+			// expected to be unreachable under the contract's assumptions (not a sign of vacuity)
+			if cur == nil {
+				return fail("dead outside func")
+			}
+			m := regexp.MustCompile(`^"((?:[^"\\]|\\.)*)"`).FindStringSubmatch(s.rest)
+			if m == nil {
+				return fail(`dead needs '"anchor text"'`)
+			}
+			cur.Dead = append(cur.Dead, m[1])
 		case "frameset":
 			// frameset name: comp, comp, ...   (a named list for use as "@name" in modifies clauses)
 			name, text, ok := strings.Cut(s.rest, ":")
